@@ -278,8 +278,9 @@ func main() {
 
 	base, err := reclib.TempDir("c29")
 	if err != nil {
-		vcommon.Harness("tempdir: %v", err)
+		harnessErr("tempdir: %v", err)
 	}
+	scratchDir = base
 	defer os.RemoveAll(base)
 	recRoot := filepath.Join(base, "rec")
 
@@ -289,11 +290,11 @@ func main() {
 		dir := filepath.Join(recRoot, path)
 		_ = os.MkdirAll(dir, 0o755)
 		if _, err = reclib.Record(dir, path, h, nil); err != nil {
-			vcommon.Harness("corpus %q: %v", h.Name, err)
+			harnessErr("corpus %q: %v", h.Name, err)
 		}
 		files, err2 := reclib.Snapshot(dir)
 		if err2 != nil {
-			vcommon.Harness("snapshot: %v", err2)
+			harnessErr("snapshot: %v", err2)
 		}
 		segs, err2 := reclib.ParseCorpus(files)
 		if err2 != nil {
@@ -317,10 +318,10 @@ func main() {
 	{
 		f, err2 := os.Create(filepath.Join(base, "corpus.gob"))
 		if err2 != nil {
-			vcommon.Harness("corpus: %v", err2)
+			harnessErr("corpus: %v", err2)
 		}
 		if err2 = gob.NewEncoder(f).Encode(corpus); err2 != nil {
-			vcommon.Harness("corpus: %v", err2)
+			harnessErr("corpus: %v", err2)
 		}
 		f.Close()
 	}
@@ -345,7 +346,7 @@ func main() {
 	for gcd(stride, total) != 1 {
 		stride++
 	}
-	deadline := time.Now().Add(150 * time.Second)
+	deadline := time.Now().Add(100 * time.Second)
 	if r.Thorough() {
 		deadline = time.Now().Add(13 * time.Minute)
 	}
@@ -369,7 +370,7 @@ func main() {
 		}
 		var res Result
 		if err2 := json.Unmarshal(cr.Data, &res); err2 != nil {
-			vcommon.Harness("worker answer: %v", err2)
+			harnessErr("worker answer: %v", err2)
 		}
 		r.Distinct(res.Class)
 		if *flagOne != "" {
@@ -386,7 +387,7 @@ func main() {
 		}
 	})
 	if err != nil {
-		vcommon.Harness("worker pool: %v", err)
+		harnessErr("worker pool: %v", err)
 	}
 	for k, v := range kinds {
 		r.Set("requests_"+k, v)
@@ -404,6 +405,7 @@ func main() {
 			"and nothing is required when the start lies in a gap or before the first recording",
 		"the newest unit of every track at close time is held back by the recorder and is not part of the recorded media",
 	}
+	_ = os.RemoveAll(base)
 	r.Finish()
 }
 
@@ -472,4 +474,14 @@ func joinInts(v []int) string {
 		s[i] = fmt.Sprint(x)
 	}
 	return strings.Join(s, ",")
+}
+
+var scratchDir string
+
+// harnessErr removes the scratch directory and reports a harness error (exit 2).
+func harnessErr(format string, a ...any) {
+	if scratchDir != "" {
+		_ = os.RemoveAll(scratchDir)
+	}
+	vcommon.Harness(format, a...)
 }
